@@ -163,7 +163,7 @@ func formatArg(fr *frame, spec string, verb byte, sharp bool, a iface) value {
 						return s
 					}
 					if verb == 'q' {
-						return opaqueStr("%q of symbolic string")
+						return quoteSym(fr.i, s)
 					}
 					return s
 				}
@@ -182,6 +182,9 @@ func formatArg(fr *frame, spec string, verb byte, sharp bool, a iface) value {
 		}
 		if (verb == 's' || verb == 'v') && !sharp {
 			return x
+		}
+		if verb == 'q' && !sharp && spec == "%q" {
+			return quoteSym(fr.i, x)
 		}
 		return opaqueStr("%" + string(verb) + " of symbolic string")
 	}
